@@ -106,7 +106,7 @@ def judge(case):
         rd = {'DIV': 'div', 'DIVEQUAL': 'div', 'REGEX': 'regex', None: None}
         seen = [[off, rd[firsts.get(off)], rd[kinds.get(off)]]
                 for off, _ in slashes]
-        judge.drift = seen != case[3]
+        judge.drift = seen[:len(case[3])] != case[3]
         judge.seen = seen
     if out[0] != 'ok':
         return (out[0], out[1])
